@@ -12,6 +12,8 @@ Spec syntax (one file per source file, name <file>.spec, e.g. parse.c.spec):
 
 modes
   top        (function '-') insert at the very start of the file
+  gafter     (function '-') insert as new line(s) after a file-scope declaration line (unindented, ends in ';')
+  gbefore    (function '-') likewise, before it
   prefunc    insert on a new line before the first line of the function
              definition (its return-type line); anchor ignored
   begin      insert right after the opening brace line of the function body
@@ -122,6 +124,17 @@ def weave_file(src_path, spec_items):
         mode = it['mode']
         if mode == 'top':
             inserts.append((0, seq, text))
+            continue
+        if mode in ('gafter', 'gbefore'):
+            # file-scope anchor (function '-'): a declaration line outside any function body, matched over the whole file
+            want = _norm(it['anchor'])
+            hits = [i for i in range(len(lines)) if want and want in _norm(lines[i])]
+            idx = hits[it['nth'] - 1] if it['nth'] and len(hits) >= it['nth'] else (hits[0] if len(hits) == 1 else None)
+            if idx is None:
+                raise WeaveError(f'{it["where"]}: file-scope anchor {it["anchor"]!r} matched {len(hits)} lines')
+            if not lines[idx].rstrip().endswith(';') or lines[idx][:1] in (' ', '\t'):
+                raise WeaveError(f'{it["where"]}: file-scope anchor is not an unindented declaration line ending in ";"')
+            inserts.append((offs[idx + 1] if mode == 'gafter' else offs[idx], seq, text))
             continue
         start, ob, cb = func_extent(lines, it['func'])
         if mode == 'prefunc':
